@@ -385,7 +385,7 @@ def _check_with_target(sub, case, cid, target):
 
 
 def run(ctx):
-    ctx.hyp("histories", cases, check_case, ctx.n(1500, 40000))
+    ctx.hyp("histories", cases, check_case, ctx.n(4000, 40000))
 
 
 def replay(sub, case):
